@@ -25,6 +25,7 @@ BecameLeader == ActUp /\ Post.role = "L" /\ ~(Pre.up /\ Pre.role = "L" /\ Pre.te
 \* need not be re-evaluated otherwise (nothing they depend on changed for that node).
 LogChanged == ~BothUp \/ Post.uents # Pre.uents \/ Post.uoff # Pre.uoff \/ Post.usnap # Pre.usnap
               \/ PostD.ents # PreD.ents \/ PostD.cidx # PreD.cidx \/ A.name \in {"Crash", "CrashInAppend"}
+IsProposeAct == A.name \in {"Propose", "ProposeConfChange", "ProposeBatch"}
 StrictMajorityOf(Q, S) == S = {} \/ IsStrictMajority(Q \cap S, S)
 
 ----------------------------------------------------------------------------
@@ -313,16 +314,27 @@ C16_NoAppendDuringSnapshot ==
   (BothUp /\ Post.role = "L") => \A k \in DOMAIN NewMsgs :
     (NewMsgs[k].type = "App" /\ HasPr(Post, NewMsgs[k].to) /\ GetPr(Post, NewMsgs[k].to).state = "Snapshot")
       => \E q \in DOMAIN NewMsgs : q > k /\ NewMsgs[q].type = "Snap" /\ NewMsgs[q].to = NewMsgs[k].to
-\* within the window the accepted payload bytes never exceed the limit by more than one proposal
+\* payload bytes of the leader's own-term entries that are not yet applied
+OwnUnappliedBytes(n, d) ==
+  LET lo == Max2(n.applied + 1, FirstIndex(n, d)) hi == LastIndex(n, d)
+  IN  PayloadBytes(SelectSeq([k \in 1..(IF hi >= lo THEN hi - lo + 1 ELSE 0) |-> EntryAt(n, d, lo + k - 1)],
+                             LAMBDA e : e.term = n.term))
+AcceptStep == BothUp /\ Post.role = "L" /\ Pre.role = "L" /\ Pre.term = Post.term
+              /\ LastIndex(Post, PostD) > LastIndex(Pre, PostD)
+              /\ (IsProposeAct \/ (A.name = "Deliver" /\ A.msg.type = "Prop"))
+AcceptedBytes == LET lo == LastIndex(Pre, PostD) + 1 hi == LastIndex(Post, PostD)
+                 IN  PayloadBytes([k \in 1..(hi - lo + 1) |-> EntryAt(Post, PostD, lo + k - 1)])
+\* a leader accepts at most MaxUncommittedEntriesSize bytes of (unapplied) proposals plus one proposal
 C16_UncommittedBound ==
-  (ActUp /\ Post.role = "L" /\ hist.uncAcc[I].valid) =>
-    hist.uncAcc[I].bytes - hist.uncAcc[I].lastAcc <= MaxUncommitted(Cfg(I))
-\* ... and a proposal made at the leader is reported dropped exactly when something was already
-\* accepted and it would exceed the limit (empty proposals are never dropped for size)
+  (AcceptStep /\ hist.uncAcc[I].valid) =>
+    \* (an empty proposal is never refused and changes nothing)
+    LET u == OwnUnappliedBytes(Post, PostD) IN u <= MaxUncommitted(Cfg(I)) \/ u = AcceptedBytes \/ AcceptedBytes = 0
+\* ... and a proposal made at the leader is reported dropped for size exactly when something is already
+\* outstanding and it would exceed the limit (empty proposals are never dropped for size)
 C16_DropIffOver ==
-  (BothUp /\ A.name = "Propose" /\ Pre.role = "L" /\ Post.role = "L" /\ hist.uncAcc[I].prevValid /\ hist.uncAcc[I].valid
+  (BothUp /\ A.name = "Propose" /\ Pre.role = "L" /\ Post.role = "L" /\ hist.uncAcc[I].valid
      /\ Pre.transferee = 0 /\ HasPr(Pre, I)) =>
-    LET before == hist.uncAcc[I].prevBytes
+    LET before == OwnUnappliedBytes(Pre, PostD)
         over == before > 0 /\ A.psz > 0 /\ before + A.psz > MaxUncommitted(Cfg(I))
     IN  (A.ret = "dropped") <=> over
 
@@ -361,7 +373,7 @@ C20_NothingInvented ==
     LET e == AllLogEntries(Post, PostD)[k] IN
       /\ e.pid >= 0
       /\ e.pid > 0 => (e.pid \in DOMAIN hist.props /\ hist.props[e.pid].ret # "dropped"
-                       /\ hist.props[e.pid].cc = (e.type # "N"))
+                       /\ hist.props[e.pid].cc = (e.type # "N") /\ hist.props[e.pid].psz = e.psz)
       /\ e.pid = 0 => (e.psz = 0 /\ (e.type = "N" \/ (e.type = "CC2" /\ e.cc.changes = <<>>)))
 CountPid(ents, p) == Cardinality({k \in DOMAIN ents : ents[k].pid = p})
 C20_AtMostOncePerDelivery ==
@@ -371,16 +383,33 @@ C20_AtMostOncePerDelivery ==
         CountPid(ents, ents[k].pid) <=
           (IF ents[k].pid \in DOMAIN hist.props /\ hist.props[ents[k].pid].atLeader /\ hist.props[ents[k].pid].ret = "ok" THEN 1 ELSE 0)
           + MapGet(hist.propDeliv, ents[k].pid, 0)
+\* a proposal made at the leader itself appears exactly once, entry by entry, in order; a conf-change
+\* entry may have been neutralised into an empty normal entry; raft may add entries of its own after it
 C20_ProposedAtLeaderOnce ==
-  (BothUp /\ A.name \in {"Propose", "ProposeConfChange"} /\ Pre.role = "L") =>
+  (BothUp /\ IsProposeAct /\ Pre.role = "L") =>
     LET new == OwnNewEntries IN
-      IF A.ret = "ok" THEN /\ Len(new) >= 1
-                           /\ \/ new[1].pid = A.pid
-                              \/ (A.name = "ProposeConfChange" /\ new[1].type = "N" /\ new[1].pid = 0 /\ new[1].psz = 0)
-                           /\ \A k \in 2..Len(new) : new[k].pid = 0
+      IF A.ret = "ok"
+      THEN /\ Len(new) >= Len(A.ents)
+           /\ \A k \in DOMAIN A.ents :
+                \/ (new[k].pid = A.ents[k].pid /\ new[k].type = A.ents[k].type /\ new[k].psz = A.ents[k].psz /\ new[k].cc = A.ents[k].cc)
+                \/ (A.ents[k].type # "N" /\ new[k].type = "N" /\ new[k].pid = 0 /\ new[k].psz = 0)
+           /\ \A k \in (Len(A.ents) + 1)..Len(new) : new[k].pid = 0
       ELSE Len(new) = 0
+\* messages already queued for sending are never altered (a forwarded proposal keeps its payload)
+C20_QueuedIntact ==
+  (BothUp /\ A.name # "Ready") =>
+    /\ Len(Post.msgs) >= Len(Pre.msgs) /\ SubSeq(Post.msgs, 1, Len(Pre.msgs)) = Pre.msgs
+    /\ (A.name \notin {"Advance", "AppendThread"} =>
+          (Len(Post.after) >= Len(Pre.after) /\ SubSeq(Post.after, 1, Len(Pre.after)) = Pre.after))
+\* a proposal forwarded by a follower travels as one MsgProp with exactly the proposed entries
+C20_ForwardIntact ==
+  (BothUp /\ IsProposeAct /\ Pre.role # "L" /\ A.ret = "ok") =>
+    LET nm == NewMsgs IN
+      /\ Len(nm) = 1 /\ nm[1].type = "Prop" /\ nm[1].to = Pre.lead
+      /\ Len(nm[1].entries) = Len(A.ents)
+      /\ \A k \in DOMAIN A.ents : Key(nm[1].entries[k]) = Key(A.ents[k])
 C20_DroppedMeansDropped ==
-  (BothUp /\ A.name \in {"Propose", "ProposeConfChange"} /\ A.ret = "dropped") =>
+  (BothUp /\ IsProposeAct /\ A.ret = "dropped") =>
     /\ LastIndex(Post, PostD) = LastIndex(Pre, PostD)
     /\ Post.msgs = Pre.msgs
 
@@ -402,5 +431,5 @@ AllInvariants ==
   /\ C16_MsgSizeBound /\ C16_InflightBound /\ C16_NoAppendDuringSnapshot /\ C16_UncommittedBound /\ C16_DropIffOver
   /\ C17_PreVoteBeforeTerm /\ C17_PreVoteNoStateChange /\ C17_LeaseHolds /\ C17_CheckQuorumStepDown
   /\ C19_SameOutputs
-  /\ C20_NothingInvented /\ C20_AtMostOncePerDelivery /\ C20_ProposedAtLeaderOnce /\ C20_DroppedMeansDropped
+  /\ C20_NothingInvented /\ C20_AtMostOncePerDelivery /\ C20_ProposedAtLeaderOnce /\ C20_QueuedIntact /\ C20_ForwardIntact /\ C20_DroppedMeansDropped
 =============================================================================
